@@ -374,7 +374,8 @@ class Interp(object):
         if attr in _NDARRAY_ATTRS and (isinstance(obj, (int, Fr, Poly, Rat, Choice)) or hasattr(obj, 'is_elem_')):
             # numpy scalars behave like 0-d arrays
             res = getattr(Arr((), [obj]), attr)
-            if callable(res) and not isinstance(res, Arr):
+            import types
+            if isinstance(res, (types.MethodType, types.FunctionType)):
                 return _unwrap0(res)
             return res.item() if isinstance(res, Arr) and res.ndim == 0 else res
         try:
